@@ -26,6 +26,12 @@ CLAIMED = {
         "Totality is sampled, not proved. Runs use a 1 GiB stack except the dedicated default-stack probe. Known finding C09-file-location-panics is reported, not suppressed silently.",
         "DESIGN.md §6 C09",
     ),
+    "C20": (
+        "runtime monitors vs executable sequential models after every operation (stack-of-snapshots for the scoped map, naive windows for the matcher, string table for the interner), exhaustive over small histories + BFS over distinct states + random; tags: real threads behind a barrier with uniqueness oracle and counted ownership interleavings; Miri many-seeds (data-race detector, weak memory) and ThreadSanitizer stages",
+        "Held on the executions produced: all 1e7 (quick) / 1e8 (thorough) histories over 2 keys x 2 values for both backing containers incl. iter_all->FromIterator rebuild bisimulation, BFS to depth 12/15, random histories over 16 keys; all patterns<=5 x texts<=12 over {a,b,c}; interner under constant, weak and random hashers incl. serde rebuild; 2/8/64 threads x N tag creations with distinct interleavings counted; Miri 32/256 seeds; TSan (thorough). Thread schedules are sampled, not enumerated.",
+        "The sequential models are the specification. Miri/TSan stages report tool failure as INCONCLUSIVE, never as a violation.",
+        "DESIGN.md §6 C20",
+    ),
 }
 
 NOT_CLAIMED = {}
